@@ -23,19 +23,22 @@ CONSTANTS
   MaxWriters = %(writers)d
   FlushSupported = %(fls)s
   WithFlush = %(wfl)s
+  WithAbort = %(wab)s
+  AbortPutsBlind = %(abb)s
   PutBeforeFlush = %(bad)s
 VIEW View
 %(inv)s
 CHECK_DEADLOCK FALSE
 """
-INV = "INVARIANTS TypeOK NoSharedWriter NoCrossTalk ContentIntact DecisionRule HeaderRule StatusRule"
+INV = "INVARIANTS TypeOK PoolSane NoSharedWriter NoCrossTalk ContentIntact DecisionRule HeaderRule StatusRule"
 ACTIONS = ["Begin", "WriteHeader", "Write", "FinishFlush", "FinishPut"]
 MCCHUNKS2 = "MCChunksTwo"
 
 
-def cfg(spec, handlers, ops, reqs, full=False, bad=False, inv=False, codes=None, chunks=None, flush=None):
+def cfg(spec, handlers, ops, reqs, full=False, bad=False, inv=False, codes=None, chunks=None, flush=None, abort=False, blind=False):
     """flush: None = scripts without Flush; True / False = with Flush, got through / no-op"""
     return CFG % dict(spec=spec, handlers=handlers, ops=ops, reqs=reqs,
+                      wab="TRUE" if abort else "FALSE", abb="TRUE" if blind else "FALSE",
                       fls="TRUE" if flush else "FALSE", wfl="FALSE" if flush is None else "TRUE",
                       codes=codes or ("MCCodesFull" if full else "MCCodesSmall"),
                       chunks=chunks or ("MCChunksFull" if full else "MCChunksSmall"),
@@ -43,28 +46,59 @@ def cfg(spec, handlers, ops, reqs, full=False, bad=False, inv=False, codes=None,
                       bad="TRUE" if bad else "FALSE", inv=INV if inv else "")
 
 
-def mc(ctx, what, handlers, ops, reqs, timeout, codes=None, flush=None):
-    r = ctx.tlc("Gzip_MC", cfg_text=cfg("Spec", handlers, ops, reqs, inv=True, codes=codes, flush=flush), workers=8, timeout=timeout,
-                coverage=ctx.thorough)
-    ctx.log("MC %s (%s, <=%d ops, %s): %d generated, %d distinct, %.0fs" % (what, handlers, ops, reqs, r.generated, r.distinct, r.wall))
-    if not ctx.need_tlc_ok(r, "Gzip MC " + what):
-        return False
-    if ctx.thorough:
-        dead = [a for a in r.coverage0 if a in ACTIONS]
-        if dead:
-            ctx.inconclusive("Gzip MC %s: action(s) never taken: %s" % (what, dead))
-            return False
-    ctx.cover("mc-" + what, states=r.distinct, transitions=r.generated)
+def par_tlc(ctx, jobs, width=4):
+    """run independent TLC invocations concurrently (the JVM start-up dominates the small ones);
+    jobs: list of dicts(name=, cfg_text=, json_sink=None, timeout=, coverage=False, workers=4).
+    Returns {name: TLCResult}; results are inspected by the caller in the main thread."""
+    from concurrent.futures import ThreadPoolExecutor
+    def one(j):
+        return j["name"], ctx.tlc("Gzip_MC", cfg_text=j["cfg_text"], workers=j.get("workers", 4), timeout=j["timeout"],
+                                  coverage=j.get("coverage", False), json_sink=j.get("json_sink"))
+    with ThreadPoolExecutor(max_workers=width) as ex:
+        return dict(ex.map(one, jobs))
+
+
+def mc_job(ctx, what, handlers, ops, reqs, timeout, **kw):
+    return dict(name="mc-" + what, kind="mc", what=what, desc="%s, <=%d ops, %s" % (handlers, ops, reqs),
+                cfg_text=cfg("Spec", handlers, ops, reqs, inv=True, **kw), timeout=timeout, coverage=ctx.thorough,
+                workers=ctx.pick(4, 8))
+
+
+def gen_job(ctx, what, sink, handlers, ops, reqs, full, timeout=900, **kw):
+    return dict(name="gen-" + what, kind="gen", what=what, desc="%s, <=%d ops, %s" % (handlers, ops, reqs),
+                cfg_text=cfg("GenSpec", handlers, ops, reqs, full=full, **kw), json_sink=sink, timeout=timeout, workers=ctx.pick(4, 8))
+
+
+def settle(ctx, jobs, res):
+    """main-thread inspection of parallel TLC results; False = the run cannot go on"""
+    for j in jobs:
+        r = res[j["name"]]
+        if j["kind"] == "mc":
+            ctx.log("MC %s (%s): %d generated, %d distinct, %.0fs" % (j["what"], j["desc"], r.generated, r.distinct, r.wall))
+            if not ctx.need_tlc_ok(r, "Gzip MC " + j["what"]):
+                return False
+            if ctx.thorough:
+                dead = [a for a in r.coverage0 if a in ACTIONS]
+                if dead:
+                    ctx.inconclusive("Gzip MC %s: action(s) never taken: %s" % (j["what"], dead))
+                    return False
+            ctx.cover(j["name"], states=r.distinct, transitions=r.generated)
+        elif j["kind"] == "gen":
+            ctx.log("Gen %s (%s): %d transitions, %.0fs" % (j["what"], j["desc"], r.generated, r.wall))
+            if not ctx.need_tlc_ok(r, "Gzip Gen " + j["what"]):
+                return False
+            ctx.cover(j["name"], transitions=r.generated)
+        elif j["kind"] == "must-fail":
+            if r.error or r.timed_out or r.violated not in j["expect"]:
+                ctx.inconclusive("%s is NOT rejected by the model's invariants (violated=%s error=%s)" % (j["what"], r.violated, r.error))
+                return False
+            ctx.log("MC broken design (%s): violates %s after %d states, as required" % (j["what"], r.violated, r.generated))
     return True
 
 
-def gen(ctx, what, sink, handlers, ops, reqs, full, timeout=900, codes=None, chunks=None, flush=None):
-    r = ctx.tlc("Gzip_MC", cfg_text=cfg("GenSpec", handlers, ops, reqs, full=full, codes=codes, chunks=chunks, flush=flush), workers=8, json_sink=sink, timeout=timeout)
-    ctx.log("Gen %s (%s, <=%d ops, %s): %d transitions, %.0fs" % (what, handlers, ops, reqs, r.generated, r.wall))
-    if not ctx.need_tlc_ok(r, "Gzip Gen " + what):
-        return False
-    ctx.cover("gen-" + what, transitions=r.generated)
-    return True
+def gen(ctx, what, sink, handlers, ops, reqs, full, timeout=900, **kw):
+    j = gen_job(ctx, what, sink, handlers, ops, reqs, full, timeout=timeout, **kw)
+    return settle(ctx, [j], par_tlc(ctx, [j]))
 
 
 def share(ctx, src, dst, keep, boost=1.0, need=None, pred=None):
@@ -139,72 +173,60 @@ def run(ctx):
         "the mode is left free where statement and documentation are silent: no explicit Content-Type (sniffed), Accept: text/event-stream, nothing written; HEAD / 204 / 304 are asserted for status and labels only",
         "a Flush may get through the compressing writer (then it commits status 200 and the compress decision is due before that) or be a no-op: status and body presence are accepted under either reading, everything else is asserted as usual",
         "Accept-Encoding values that make gzip acceptable only through * or an unusual spelling leave the mode free (not compressing is always permitted there); values that refuse gzip (explicit q=0, also next to *; *;q=0 without an explicit entry) must not be compressed",
+        "histories on one handler / proxy instance: a handler may give up with panic(http.ErrAbortHandler) after any op (nothing is asserted of the aborted response, everything of all others - thousands of responses share the instance and its writer pool), and may add a Vary value of its own, which must arrive and must not leak into other responses",
+        "a panic of the handler under test other than the scripted abort, and a connection cut without response that it explains, are violations",
         "the status of scripts with several WriteHeader calls is cross-checked against (and taken from) a reference run of the same script on net/http without the gzip wrapper",
         "a response the inner handler labelled with a Content-Encoding must pass unchanged (also when that label is gzip)",
         "a data race report involving proxy/gzip/gzip_handler.go counts as a violation (shared writer pool)",
     ]
-    # 1. the pool / content / header invariants on the model; the broken design must be caught
+    # 1. the pool / content / header invariants on the model (the broken designs must be caught) and
+    # 2. the behaviours - independent TLC runs, several at a time
+    T = ctx.tmp
+    one, two, info, info2, aef, flf, hst, hst2 = (os.path.join(T, "c17." + n) for n in ("one", "two", "info", "info2", "ae", "flush", "hist", "hist2"))
+    jobs = []
     if ctx.thorough:
-        runs = (("pool-4ops", "MCTwo", 4, "MCReqsMid", 1500), ("pool-3handlers", "MCThree", 2, "MCReqsSmall", 900))
+        jobs += [mc_job(ctx, "pool-4ops", "MCTwo", 4, "MCReqsMid", 1500), mc_job(ctx, "pool-3handlers", "MCThree", 2, "MCReqsSmall", 900),
+                 mc_job(ctx, "informational", "MCTwo", 3, "MCReqsInfoPair", 900, codes="MCCodesInfoSmall"),
+                 mc_job(ctx, "flush-through", "MCTwo", 3, "MCReqsPair", 900, flush=True),
+                 mc_job(ctx, "flush-noop", "MCTwo", 3, "MCReqsPair", 900, flush=False),
+                 mc_job(ctx, "abort-histories", "MCThree", 2, "MCReqsHistPair", 900, abort=True)]
     else:
-        runs = (("pool-4ops", "MCTwo", 4, "MCReqsSmall", 200),)
-    for what, hs, ops, reqs, to in runs:
-        if not mc(ctx, what, hs, ops, reqs, to):
-            return
-    # informational WriteHeader(1xx) calls before / after the final header, and streamed responses (Flush
-    # between chunks / before the first one) under both permitted readings of Flush; two handlers over the pool
-    if ctx.thorough:
-        if not mc(ctx, "informational", "MCTwo", 3, "MCReqsInfoPair", 900, codes="MCCodesInfoSmall"):
-            return
-        for fl in (True, False):
-            if not mc(ctx, "flush-%s" % ("through" if fl else "noop"), "MCTwo", 3, "MCReqsPair", 900, flush=fl):
-                return
-    else:
-        if not mc(ctx, "informational+flush-noop", "MCTwo", 2, "MCReqsInfoPair", 200, codes="MCCodesInfoSmall", flush=False):
-            return
-        if not mc(ctx, "flush-through", "MCTwo", 2, "MCReqsPair", 200, flush=True):
-            return
-    bad = ctx.tlc("Gzip_MC", cfg_text=cfg("Spec", "MCTwo", 2, "MCReqsSmall", bad=True, inv=True), workers=4, timeout=200)
-    if bad.error or bad.timed_out or bad.violated not in ("NoSharedWriter", "ContentIntact", "NoCrossTalk"):
-        ctx.inconclusive("the design that returns a writer to the pool before flushing it is NOT rejected by the model's invariants (violated=%s error=%s)"
-                         % (bad.violated, bad.error))
-        return
-    ctx.log("MC broken design (Put before flush): violates %s after %d states, as required" % (bad.violated, bad.generated))
-
-    # 2. behaviours
-    one = os.path.join(ctx.tmp, "c17.one")
-    if not gen(ctx, "one-handler", one, "MCOne", ctx.pick(3, 4), "MCReqsFull", True):
-        return
-    two = os.path.join(ctx.tmp, "c17.two")
-    if not gen(ctx, "two-handlers", two, "MCTwo", 2, ctx.pick("MCReqsPair", "MCReqsMid"), False):
-        return
-    info = os.path.join(ctx.tmp, "c17.info")
-    if not gen(ctx, "informational", info, "MCOne", ctx.pick(3, 4), "MCReqsInfo", False, codes="MCCodesInfo"):
-        return
-    info2 = os.path.join(ctx.tmp, "c17.info2")
-    if not gen(ctx, "two-handlers-1xx-flush", info2, "MCTwo", 2, "MCReqsInfoPair", False, codes="MCCodesInfoSmall", flush=False):
-        return
-    aef = os.path.join(ctx.tmp, "c17.ae")
-    if not gen(ctx, "accept-encoding", aef, "MCOne", ctx.pick(2, 3), "MCReqsAE", False, codes="MCCodesFlush", chunks=MCCHUNKS2):
-        return
-    flf = os.path.join(ctx.tmp, "c17.flush")
-    if not gen(ctx, "flush", flf, "MCOne", ctx.pick(3, 4), "MCReqsFlush", False, codes="MCCodesFlush", flush=False):
+        jobs += [mc_job(ctx, "pool-4ops", "MCTwo", 4, "MCReqsSmall", 200),
+                 mc_job(ctx, "informational+flush-noop", "MCTwo", 2, "MCReqsInfoPair", 200, codes="MCCodesInfoSmall", flush=False),
+                 mc_job(ctx, "flush-through", "MCTwo", 2, "MCReqsPair", 200, flush=True),
+                 mc_job(ctx, "abort-histories", "MCTwo", 3, "MCReqsHistPair", 200, abort=True)]
+    jobs += [dict(name="bad-put", kind="must-fail", what="a writer returned to the pool before it is flushed", expect=("NoSharedWriter", "ContentIntact", "NoCrossTalk"),
+                  cfg_text=cfg("Spec", "MCTwo", 2, "MCReqsSmall", bad=True, inv=True), timeout=200),
+             dict(name="bad-abort", kind="must-fail", what="an abort that hands a writer it never had back to the pool", expect=("PoolSane", "TypeOK"),
+                  cfg_text=cfg("Spec", "MCTwo", 2, "MCReqsHistPair", abort=True, blind=True, inv=True), timeout=200)]
+    jobs += [gen_job(ctx, "one-handler", one, "MCOne", ctx.pick(3, 4), "MCReqsFull", True),
+             gen_job(ctx, "two-handlers", two, "MCTwo", 2, ctx.pick("MCReqsPair", "MCReqsMid"), False),
+             gen_job(ctx, "informational", info, "MCOne", ctx.pick(3, 4), "MCReqsInfo", False, codes="MCCodesInfo"),
+             gen_job(ctx, "two-handlers-1xx-flush", info2, "MCTwo", 2, "MCReqsInfoPair", False, codes="MCCodesInfoSmall", flush=False),
+             gen_job(ctx, "accept-encoding", aef, "MCOne", ctx.pick(2, 3), "MCReqsAE", False, codes="MCCodesFlush", chunks=MCCHUNKS2),
+             gen_job(ctx, "flush", flf, "MCOne", ctx.pick(3, 4), "MCReqsFlush", False, codes="MCCodesFlush", flush=False),
+             # histories on one instance: responses with a Vary value of their own / aborted mid-way, then ordinary ones
+             gen_job(ctx, "abort+own-vary", hst, "MCOne", ctx.pick(3, 4), "MCReqsHist", False, chunks=MCCHUNKS2, abort=True),
+             gen_job(ctx, "abort+own-vary-two-handlers", hst2, "MCTwo", 2, "MCReqsHistPair", False, abort=True)]
+    if not settle(ctx, jobs, par_tlc(ctx, jobs, width=ctx.pick(4, 3))):
         return
     behs = os.path.join(ctx.tmp, "c17.behs")
     n1 = share(ctx, one, behs, ctx.pick(0.04, 0.12), boost=4.0)
-    n2 = share(ctx, two, behs, ctx.pick(0.03, 0.06), boost=2.0)
+    n2 = share(ctx, two, behs, ctx.pick(0.02, 0.06), boost=2.0)
     n3 = share(ctx, info, behs, ctx.pick(0.12, 0.15), boost=2.0, need='"code":10')
-    n2 += share(ctx, info2, behs, ctx.pick(0.04, 0.2), boost=2.0, pred=lambda l: '"code":10' in l or '"ev":"fl"' in l)
+    n2 += share(ctx, info2, behs, ctx.pick(0.015, 0.2), boost=2.0, pred=lambda l: '"code":10' in l or '"ev":"fl"' in l)
     n4 = share(ctx, aef, behs, ctx.pick(0.5, 1.0))
     n4 += share(ctx, flf, behs, ctx.pick(0.06, 0.12), boost=3.0, need='"ev":"fl"')
+    n5 = share(ctx, hst, behs, ctx.pick(0.25, 0.25))
+    n5 += share(ctx, hst2, behs, ctx.pick(0.08, 0.3))
 
     # 3. replay against the real handler, concurrently, under the race detector
     r = run_gzip(ctx, behs, "C17 replay", timeout=ctx.pick(400, 850))
     if r is None:
         return
     s = r.summary
-    ctx.log("replayed %d behaviours (%d single-handler + %d two-handler + %d with informational headers + %d Accept-Encoding / Flush selected, %d reference runs without the wrapper): %d handlers, %d delivered gzip / %d plain, %.1f MB written by inner handlers, %d chunks >= 64 KiB, %d failed, %.0fs"
-            % (s["ran"], n1, n2, n3, n4, s["reference_runs"], s["handlers"], s["gzip_mode"], s["plain_mode"], s["inner_bytes"] / 1e6, s["chunks_64k_plus"], s["fails"], r.wall))
+    ctx.log("replayed %d behaviours (%d single-handler + %d two-handler + %d with informational headers + %d Accept-Encoding / Flush + %d abort / own-Vary histories selected, %d reference runs without the wrapper): %d handlers, %d delivered gzip / %d plain, %.1f MB written by inner handlers, %d chunks >= 64 KiB, %d failed, %.0fs"
+            % (s["ran"], n1, n2, n3, n4, n5, s["reference_runs"], s["handlers"], s["gzip_mode"], s["plain_mode"], s["inner_bytes"] / 1e6, s["chunks_64k_plus"], s["fails"], r.wall))
     if s["ran"] == 0 or s["gzip_mode"] == 0 or s["plain_mode"] == 0 or s["two_handler_behaviours"] == 0:
         ctx.inconclusive("replay is vacuous: %s" % json.dumps(s)[:400])
     ctx.cover("gzip", traces_validated_against_impl=s["ran"], evaluations=s["handlers"], distinct_nontrivial=s["distinct_nontrivial"],
@@ -220,6 +242,7 @@ def run(ctx):
     share(ctx, info, px, ctx.pick(0.08, 0.15), boost=2.0, need='"code":10')
     share(ctx, aef, px, ctx.pick(0.3, 0.5))
     share(ctx, flf, px, ctx.pick(0.03, 0.05), boost=3.0, need='"ev":"fl"')
+    share(ctx, hst, px, ctx.pick(0.15, 0.15))
     r = run_proxy(ctx, px, "C17 through HTTPProxy", timeout=ctx.pick(300, 600))
     if r is None:
         return
